@@ -105,7 +105,17 @@ def campaign(ctx, module, target, runs, check="fuzz", pure=False, rss_mb=6144, p
     art = os.path.join(work, "art")
     os.makedirs(corpus)
     os.makedirs(art)
-    seeds = list(t["seeds"]()) if t.get("seeds") else []
+    # seed functions may build state through the target's own environment (fuzzt.common.JudgeCtx): keep its scratch below
+    # the work directory and drop the cached state afterwards (the directory goes away with the campaign)
+    os.environ["VF_FUZZ_WORK"] = work
+    if t.get("reset"):
+        t["reset"]()
+    try:
+        seeds = list(t["seeds"]()) if t.get("seeds") else []
+    finally:
+        os.environ.pop("VF_FUZZ_WORK", None)
+        if t.get("reset"):
+            t["reset"]()
     for i, s in enumerate(seeds):
         with open(os.path.join(corpus, "seed-%03d" % i), "wb") as f:
             f.write(s)
